@@ -62,6 +62,9 @@ def protein_id(rng, n_base=6, decoy_share=0.4, markers_inside=True):
         d = ""
     if markers_inside and rng.random() < 0.05:
         return b + "_" + d  # marker in the middle/end of the identifier
+    if markers_inside and rng.random() < 0.08:
+        # identifiers of entrapment / shuffled-sequence databases: targets for the reported FDR, whatever they are called
+        return rng.choice([d + b + "_entrapment", d + "Random_" + b, d + "mimic|" + b])
     return d + b
 
 
